@@ -15,6 +15,5 @@ CONSTRAINT Progress
 POSTCONDITION Accept
 CHECK_DEADLOCK FALSE
 INVARIANT ScratchSound
-INVARIANT CacheSound
 INVARIANT NoSeqWithoutRegen
 INVARIANT TypeOK
